@@ -248,3 +248,43 @@ func Main(m *testing.M) {
 	stats.Flush()
 	os.Exit(code)
 }
+
+// RunBubble runs f inside a synctest bubble for deterministic (non-rapid) tests. It
+// returns a non-empty description if f panicked or if the bubble could not shut down
+// (goroutines still blocked when f returned: a leak).
+func RunBubble(t *testing.T, f func()) (failure string) {
+	done := make(chan struct{})
+	go func() {
+		select {
+		case <-done:
+		case <-time.After(bubbleWatchdog):
+			buf := make([]byte, 8<<20)
+			buf = buf[:runtime.Stack(buf, true)]
+			fmt.Fprintf(os.Stderr, "HARNESS-HANG: bubble did not finish within %v\n%s\n", bubbleWatchdog, buf)
+			stats.Flush()
+			os.Exit(3)
+		}
+	}()
+	defer close(done)
+	var inner string
+	func() {
+		defer func() {
+			if r := recover(); r != nil {
+				buf := make([]byte, 4<<20)
+				failure = fmt.Sprintf("bubble did not shut down cleanly: %v\n%s", r, filterBubble(buf[:runtime.Stack(buf, true)]))
+			}
+		}()
+		synctest.Test(t, func(*testing.T) {
+			defer func() {
+				if r := recover(); r != nil {
+					inner = fmt.Sprintf("panic inside bubble: %v\n%s", r, debug.Stack())
+				}
+			}()
+			f()
+		})
+	}()
+	if inner != "" {
+		return inner
+	}
+	return failure
+}
